@@ -294,7 +294,7 @@ class Summaries:
         def call_closure(ctx, st, f, args):
             return eng.call_value(st, f, args, ctx.depth, ctx.fr, ctx.bi)
 
-        from .engine import split_generic, strip_ref, elem_type, DiscrV
+        from .engine import split_generic, strip_ref, elem_type, DiscrV, Infeasible
 
         self.h = dict(deref=deref, sval=sval, coll_at=coll_at, spath=spath)
 
@@ -340,7 +340,7 @@ class Summaries:
         def _(ctx):
             return to_iter(ctx, ctx.args[0]).with_op(('rev',), ctx.ret_ty)
 
-        @reg('std::iter::Iterator::cloned')
+        @reg('std::iter::Iterator::cloned', 'std::iter::Iterator::copied')
         def _(ctx):
             return to_iter(ctx, ctx.args[0]).with_op(('cloned',), ctx.ret_ty)
 
@@ -595,6 +595,383 @@ class Summaries:
         self.iter_elem = iter_elem
         self.to_iter = to_iter
 
+        def as_iter(ctx, v):
+            """iterator value of a consumer's receiver (by value, by reference, boxed, or a range)"""
+            hops = 0
+            while isinstance(v, RefV) and hops < 3:
+                v = eng.read(ctx.st, v.path)
+                hops += 1
+            if isinstance(v, StructV) and v.ty.startswith('std::ops::Range'):
+                return range_iter(ctx, v)
+            return v
+
+        SKIP = ('skip',)
+
+        def exact_items(ctx, st, it, limit=512, maxpaths=64):
+            """all elements iterator `it` yields, in order, when its source is exactly known (constant
+            collection / constant range / known string) and every adaptor is understood:
+            [(state, [items])], one entry per path through the adaptor closures; None otherwise"""
+            if not isinstance(it, IterV) or st.vn.get(('iterpos', it.iid)) is not None:
+                return None
+            src = None
+            if it.kind == 'coll':
+                path, ckey, mode = it.args
+                c = eng.read(st, path) if path is not None else None
+                if isinstance(c, CollV) and c.known is not None and len(c.known) <= limit:
+                    src = [elem_ref(ctx, st, c, path, e, NumV(None, i, 'usize'), mode, items_known=True) for i, e in enumerate(c.known)]
+            elif it.kind == 'range':
+                lo, hi, incl = it.args
+                if isinstance(lo, NumV) and isinstance(hi, NumV) and lo.sym is None and hi.sym is None:
+                    n = hi.k - lo.k + (1 if incl else 0)
+                    if n <= limit:
+                        src = [NumV(None, lo.k + i, lo.ty) for i in range(max(n, 0))]
+            elif it.kind == 'chars':
+                sv = it.args[0]
+                if isinstance(sv, StrV) and sv.known is not None and len(sv.known) <= limit:
+                    src = [CharV(ch) for ch in sv.known]
+            elif it.kind == 'known' and it.args[1] is not None:
+                src = list(it.args[0][it.args[1]:])
+            if src is None:
+                return None
+            ops = list(it.ops)
+            # `rev` commutes with the element-wise adaptors only
+            for i, op in enumerate(ops):
+                if op[0] == 'rev':
+                    if any(o[0] not in ('cloned', 'map', 'filter', 'rev') for o in ops[:i]):
+                        return None
+            if sum(1 for o in ops if o[0] == 'rev') % 2 == 1:
+                src.reverse()
+            ops = [o for o in ops if o[0] != 'rev']
+            for op in ops:
+                if op[0] not in ('cloned', 'map', 'filter', 'skip', 'take', 'step_by'):
+                    return None
+                if op[0] in ('skip', 'take', 'step_by') and not (isinstance(op[1], NumV) and op[1].sym is None):
+                    return None
+            states = [(st, [], {})]
+            for x0 in src:
+                nxt = []
+                for (s, acc, cnt) in states:
+                    cur = [(s, x0, cnt)]
+                    for oi, op in enumerate(ops):
+                        nn = []
+                        for (s1, x1, c1) in cur:
+                            if x1 is SKIP:
+                                nn.append((s1, x1, c1))
+                            elif op[0] == 'cloned':
+                                nn.append((s1, eng.read(s1, x1.path) if isinstance(x1, RefV) else x1, c1))
+                            elif op[0] == 'map':
+                                for (s2, r) in eng.call_value(s1, op[1], [x1], ctx.depth, ctx.fr, ctx.bi):
+                                    nn.append((s2, r, c1))
+                            elif op[0] == 'filter':
+                                for (s2, r) in eng.call_value(s1, op[1], [mkref(s1, x1)], ctx.depth, ctx.fr, ctx.bi):
+                                    t = eng.eval_bool(s2, r) if isinstance(r, BoolV) else None
+                                    if t is True:
+                                        nn.append((s2, x1, c1))
+                                    elif t is False:
+                                        nn.append((s2, SKIP, c1))
+                                    elif isinstance(r, BoolV):
+                                        s3 = s2.fork()
+                                        if eng.assume_bool(s2, r, True):
+                                            nn.append((s2, x1, c1))
+                                        if eng.assume_bool(s3, r, False):
+                                            nn.append((s3, SKIP, c1))
+                                    else:
+                                        return None
+                            else:
+                                k = c1.get(oi, 0)
+                                c2 = dict(c1)
+                                c2[oi] = k + 1
+                                n = op[1].k
+                                if op[0] == 'skip':
+                                    keep = k >= n
+                                elif op[0] == 'take':
+                                    keep = k < n
+                                else:
+                                    keep = n > 0 and k % n == 0
+                                nn.append((s1, x1 if keep else SKIP, c2))
+                        cur = nn
+                    for (s1, x1, c1) in cur:
+                        nxt.append((s1, acc if x1 is SKIP else acc + [x1], c1))
+                if len(nxt) > maxpaths:
+                    return None
+                states = nxt
+            return [(s, acc) for (s, acc, _c1) in states]
+        self.exact_items = exact_items
+
+        def analyse_adaptors(ctx, st, it):
+            """run the adaptor closures once on an arbitrary element in a scratch state (their own
+            panic sites and events are recorded; the state is discarded)"""
+            if isinstance(it, IterV) and any(o[0] in ('map', 'filter') for o in it.ops):
+                try:
+                    iter_elem(ctx, st.fork(), it)
+                except Infeasible:
+                    pass
+
+        def any_elem_opt(ctx, it, extra_filter=None):
+            """Some(arbitrary element) / None: sound result of min, max, last, find on an iterator
+            whose contents are not exactly known"""
+            st = ctx.st
+            if not isinstance(it, IterV):
+                return eng.mk_default(st, ctx.ret_ty)
+            if extra_filter is not None:
+                it = it.with_op(('filter', extra_filter), it.ty)
+            res = iter_elem(ctx, st, it)
+            return opt_result(ctx, res)
+
+        def _const_nums(items):
+            return all(isinstance(x, NumV) and x.sym is None for x in items)
+
+        @regx(r'^std::iter::Iterator::(min|max)$')
+        def _(ctx):
+            it = as_iter(ctx, ctx.args[0])
+            which = ctx.callee.split('::')[-1]
+            ex = exact_items(ctx, ctx.st, it)
+            if ex is not None:
+                out = []
+                for (s, items) in ex:
+                    vals = [eng.read(s, x.path) if isinstance(x, RefV) else x for x in items]
+                    if not items:
+                        out.append((s, None))
+                    elif _const_nums(vals):
+                        ks = [v.k for v in vals]
+                        best = ks.index(min(ks)) if which == 'min' else len(ks) - 1 - ks[::-1].index(max(ks))
+                        out.append((s, items[best]))   # keeps the item type (a reference when iterating by reference)
+                    else:
+                        out = None
+                        break
+                if out is not None:
+                    return opt_result(ctx, out)
+            return any_elem_opt(ctx, it)
+
+        @reg('std::iter::Iterator::count')
+        def _(ctx):
+            it = as_iter(ctx, ctx.args[0])
+            ex = exact_items(ctx, ctx.st, it)
+            if ex is not None:
+                return [(s, NumV(None, len(items), 'usize')) for (s, items) in ex]
+            analyse_adaptors(ctx, ctx.st, it)
+            return eng.fresh_num(ctx.st, 'usize', 0, 2**40)
+
+        @reg('std::iter::Iterator::last')
+        def _(ctx):
+            it = as_iter(ctx, ctx.args[0])
+            ex = exact_items(ctx, ctx.st, it)
+            if ex is not None:
+                return opt_result(ctx, [(s, items[-1] if items else None) for (s, items) in ex])
+            return any_elem_opt(ctx, it)
+
+        @regx(r'^std::iter::Iterator::find$|as std::iter::Iterator>::find$')
+        def _(ctx):
+            it = as_iter(ctx, ctx.args[0])
+            f = ctx.args[1]
+            ex = exact_items(ctx, ctx.st, it.with_op(('filter', f), it.ty)) if isinstance(it, IterV) else None
+            if ex is not None:
+                return opt_result(ctx, [(s, items[0] if items else None) for (s, items) in ex])
+            return any_elem_opt(ctx, it, extra_filter=f)
+
+        @regx(r'^std::iter::Iterator::position$|as std::iter::Iterator>::position$')
+        def _(ctx):
+            it = as_iter(ctx, ctx.args[0])
+            f = ctx.args[1]
+            ex = exact_items(ctx, ctx.st, it)
+            if ex is not None:
+                out = []
+                for (s, items) in ex:
+                    states = [(s, None)]
+                    for idx, x in enumerate(items):
+                        nxt = []
+                        for (s1, found) in states:
+                            if found is not None:
+                                nxt.append((s1, found))
+                                continue
+                            for (s2, r) in eng.call_value(s1, f, [x], ctx.depth, ctx.fr, ctx.bi):
+                                t = eng.eval_bool(s2, r) if isinstance(r, BoolV) else None
+                                if t is True:
+                                    nxt.append((s2, idx))
+                                elif t is False:
+                                    nxt.append((s2, None))
+                                else:
+                                    s3 = s2.fork()
+                                    if isinstance(r, BoolV) and eng.assume_bool(s2, r, True):
+                                        nxt.append((s2, idx))
+                                    if isinstance(r, BoolV) and eng.assume_bool(s3, r, False):
+                                        nxt.append((s3, None))
+                        states = nxt
+                    for (s1, found) in states:
+                        out.append((s1, None if found is None else NumV(None, found, 'usize')))
+                return opt_result(ctx, out)
+            if isinstance(it, IterV) and isinstance(f, ClosureV):
+                s2 = ctx.st.fork()
+                for (s3, x1) in iter_elem(ctx, s2, it):
+                    if x1 is not None:
+                        eng.call_value(s3, f, [x1], ctx.depth, ctx.fr, ctx.bi)
+            s0 = ctx.st.fork()
+            return [(ctx.st, some(ctx.ret_ty, eng.fresh_num(ctx.st, 'usize', 0, 2**40))), (s0, none(ctx.ret_ty))]
+
+        @regx(r'^std::iter::Iterator::all$|as std::iter::Iterator>::all$')
+        def _(ctx):
+            it = as_iter(ctx, ctx.args[0])
+            f = ctx.args[1]
+            ex = exact_items(ctx, ctx.st, it)
+            if ex is not None:
+                out = []
+                for (s, items) in ex:
+                    states = [(s, True)]
+                    for x in items:
+                        nxt = []
+                        for (s1, ok) in states:
+                            if ok is not True:
+                                nxt.append((s1, ok))
+                                continue
+                            for (s2, r) in eng.call_value(s1, f, [x], ctx.depth, ctx.fr, ctx.bi):
+                                t = eng.eval_bool(s2, r) if isinstance(r, BoolV) else None
+                                if t is None and isinstance(r, BoolV):
+                                    s3 = s2.fork()
+                                    if eng.assume_bool(s2, r, True):
+                                        nxt.append((s2, True))
+                                    if eng.assume_bool(s3, r, False):
+                                        nxt.append((s3, False))
+                                else:
+                                    nxt.append((s2, bool(t)))
+                        states = nxt
+                    out += [(s1, BoolV(ok)) for (s1, ok) in states]
+                return out
+            if isinstance(it, IterV) and isinstance(f, ClosureV):
+                s2 = ctx.st.fork()
+                for (s3, x1) in iter_elem(ctx, s2, it):
+                    if x1 is not None:
+                        eng.call_value(s3, f, [x1], ctx.depth, ctx.fr, ctx.bi)
+            return BoolV(None, ('fact', ('all', next(_c))))
+
+        @regx(r'^std::iter::Iterator::fold$|as std::iter::Iterator>::fold$')
+        def _(ctx):
+            it = as_iter(ctx, ctx.args[0])
+            init, f = ctx.args[1], ctx.args[2]
+            ex = exact_items(ctx, ctx.st, it)
+            if ex is not None:
+                out = []
+                for (s, items) in ex:
+                    states = [(s, init)]
+                    for x in items:
+                        nxt = []
+                        for (s1, acc) in states:
+                            nxt += eng.call_value(s1, f, [acc, x], ctx.depth, ctx.fr, ctx.bi)
+                        states = nxt
+                    out += states
+                return out
+            if isinstance(it, IterV) and isinstance(f, ClosureV):
+                s2 = ctx.st.fork()
+                body = eng.prog.bodies.get(f.func)
+                accty = body.locals[2]['ty'] if body is not None and body.arg_count >= 2 else ctx.ret_ty
+                for (s3, x1) in iter_elem(ctx, s2, it):
+                    if x1 is not None:
+                        eng.call_value(s3, f, [eng.mk_default(s3, accty), x1], ctx.depth, ctx.fr, ctx.bi)
+            return eng.mk_default(ctx.st, ctx.ret_ty)
+
+        @regx(r'^std::iter::Iterator::for_each$|as std::iter::Iterator>::for_each$')
+        def _(ctx):
+            it = as_iter(ctx, ctx.args[0])
+            f = ctx.args[1]
+            st = ctx.st
+            ex = exact_items(ctx, st, it) if isinstance(it, IterV) else None
+            if ex is not None:
+                out = []
+                for (s, items) in ex:
+                    states = [s]
+                    for x in items:
+                        nxt = []
+                        for s1 in states:
+                            nxt += [s2 for (s2, _r) in eng.call_value(s1, f, [x], ctx.depth, ctx.fr, ctx.bi)]
+                        states = nxt
+                    out += [(s1, UNIT) for s1 in states]
+                return out
+            return closure_loop(ctx, it, f)
+
+        def closure_loop(ctx, it, f, elem_args=None):
+            """`for_each`-like consumption of an iterator whose length is not known, treated like a
+            loop cut at its head: forget what the closure may write (Screen paths from E3, captured
+            mutable places), assume INV on it, run the closure once on an arbitrary element from
+            that state (obligations, events, INV at the back edge), and continue from the forgotten
+            state."""
+            from . import inv
+            st, fr = ctx.st, ctx.fr
+            head = ('for_each', ctx.bi)
+            w = eng.effects.block_writes(fr.func, [ctx.bi]) if (eng.effects is not None and fr is not None) else set(eng.INV_PATHS)
+            span = ctx.t['span']
+            if w and eng.cfg.get('check_inv', True) and inv.S_ROOT in st.store:
+                for (name, ok, facts) in inv.check_inv(eng, st, only_written=w):
+                    eng.obligation(st, fr, ctx.bi, 'loopinv', '%s@entry' % name, span, ok, facts)
+            if isinstance(f, ClosureV):
+                for k, v in f.caps.fields.items():
+                    if isinstance(v, RefV) and v.mut and v.path[0] != inv.S_ROOT:
+                        try:
+                            cur = eng.read(st, v.path)
+                            if not isinstance(cur, RefV):
+                                eng.write(st, v.path, self.havoc_value(st, cur), log=False)
+                        except Exception:
+                            pass
+            if w:
+                inv.havoc_screen(eng, st, w)
+            st.log(('loop-head', fr.func if fr else None, head, fr.uid if fr else None))
+            if inv.S_ROOT in st.store and fr is not None:
+                try:
+                    st.vn[('lh', fr.func, head, 'x')] = inv._get(eng, st, 'cursor', 'x')
+                    st.vn[('lh', fr.func, head, 'y')] = inv._get(eng, st, 'cursor', 'y')
+                except Exception:
+                    pass
+            st.vn = {k: v for k, v in st.vn.items() if not (isinstance(k, tuple) and k and k[0] in ('contains', 'fact-coll'))}
+            s_it = st.fork()
+            try:
+                elems = iter_elem(ctx, s_it, it) if isinstance(it, IterV) else [(s_it, OpaqueV('elem', next(_c)))]
+            except Infeasible:
+                elems = []
+            for (s, x) in elems:
+                if x is None:
+                    continue
+                try:
+                    res = eng.call_value(s, f, [x] if elem_args is None else elem_args(s, x), ctx.depth, ctx.fr, ctx.bi)
+                except Infeasible:
+                    continue
+                for (s2, _r) in res:
+                    if w and eng.cfg.get('check_inv', True) and inv.S_ROOT in s2.store:
+                        for (name, ok, facts) in inv.check_inv(eng, s2, only_written=w):
+                            eng.obligation(s2, fr, ctx.bi, 'loopinv', '%s@back-edge' % name, span, ok, facts)
+                    for h in eng.hooks:
+                        h('backedge', s2, fr, head)
+            return [(st, UNIT)]
+
+        @regx(r'^std::ops::Range(Inclusive)?::<Idx>::contains(::<.*>)?$')
+        def _(ctx):
+            r = deref(ctx, ctx.args[0])
+            x = deref(ctx, ctx.args[1])
+            if isinstance(r, StructV) and isinstance(x, NumV):
+                lo, hi = r.fields.get('start'), r.fields.get('end')
+                if isinstance(lo, NumV) and isinstance(hi, NumV):
+                    incl = 'Inclusive' in r.ty
+                    a = BoolV(None, ('cmp', 'le', lo, x))
+                    b = BoolV(None, ('cmp', 'le' if incl else 'lt', x, hi))
+                    ta, tb = eng.eval_bool(ctx.st, a), eng.eval_bool(ctx.st, b)
+                    if ta is False or tb is False:
+                        return BoolV(False)
+                    if ta is True and tb is True:
+                        return BoolV(True)
+                    if ta is True:
+                        return b
+                    if tb is True:
+                        return a
+                    return BoolV(None, ('and', a, b))
+            return BoolV(None, ('fact', ('range-contains', next(_c))))
+
+        @regx(r'^std::iter::Iterator::sum$')
+        def _(ctx):
+            it = deref1(ctx, ctx.args[0])
+            ex = exact_items(ctx, ctx.st, it)
+            if ex is not None and all(_const_nums(items) for (s, items) in ex):
+                return [(s, NumV(None, sum(x.k for x in items), ctx.ret_ty)) for (s, items) in ex]
+            analyse_adaptors(ctx, ctx.st, it)
+            ctx.oblige('overflow', 'Iterator::sum cannot overflow', False, 'sum over values that are not exactly known')
+            return eng.mk_default(ctx.st, ctx.ret_ty)
+
         def freeze_closure(st, clo):
             """copy what a closure captured by reference from locals into heap places, so that it can be
             applied after the creating frame is gone"""
@@ -732,6 +1109,27 @@ class Summaries:
                             out.append((s, BoolV(t)))
                     return out
                 if isinstance(c, CollV) and isinstance(f, ClosureV):
+                    if all(o[0] == 'cloned' for o in it.ops) and c.kind in ('set', 'vec', 'slice', 'array'):
+                        # `iter().any(|m| *m == K)` is membership of the constant K
+                        s2 = st.fork()
+                        try:
+                            x = elem_ref(ctx, s2, c, path, None, None, mode)
+                            xs = apply_ops(ctx, it, [(s2, x)])
+                            if len(xs) == 1 and xs[0][1] is not None:
+                                pv = xs[0][1]
+                                while isinstance(pv, RefV):
+                                    pv = eng.read(xs[0][0], pv.path)
+                                rs = eng.call_value(xs[0][0], f, [xs[0][1]], ctx.depth, ctx.fr, ctx.bi)
+                                if len(rs) == 1 and isinstance(rs[0][1], BoolV) and isinstance(pv, NumV) and pv.sym is not None:
+                                    at = rs[0][1].atom
+                                    if at is not None and at[0] == 'cmp' and at[1] == 'eq':
+                                        a_, b_ = at[2], at[3]
+                                        if isinstance(b_, NumV) and b_.key() == pv.key():
+                                            a_, b_ = b_, a_
+                                        if isinstance(a_, NumV) and a_.key() == pv.key() and isinstance(b_, NumV) and b_.sym is None:
+                                            return bool_fact(ctx, ('contains', c.key(), b_.key()))
+                        except Infeasible:
+                            pass
                     key = ('any', c.key(), f.key(), tuple(o[0] for o in it.ops))
                     if ('anyseen', key) not in st.vn:
                         # the predicate is analysed once on an arbitrary element (its own panic
@@ -749,6 +1147,28 @@ class Summaries:
                     if x1 is not None:
                         eng.call_value(s3, f, [x1], ctx.depth, ctx.fr, ctx.bi)
             return BoolV(None, ('fact', ('any', next(_c))))
+
+        def build_known(kind, items):
+            """exactly known contents of a collection built from `items` (None when duplicates cannot be decided)"""
+            if kind == 'vec':
+                return tuple(items)
+            if kind == 'set':
+                out = []
+                for x in items:
+                    if not _is_const(x):
+                        return None
+                    if not any(y.key() == x.key() for y in out):
+                        out.append(x)
+                return tuple(out)
+            pairs = []
+            for x in items:
+                if not (isinstance(x, StructV) and '0' in x.fields and '1' in x.fields):
+                    return None
+                k, v = x.fields['0'], x.fields['1']
+                if not _is_const(k):
+                    return None
+                pairs = [(k2, v2) for (k2, v2) in pairs if k2.key() != k.key()] + [(k, v)]
+            return tuple(pairs)
 
         @reg('std::iter::Iterator::collect')
         def _(ctx):
@@ -771,7 +1191,24 @@ class Summaries:
             head, _a = split_generic(rty)
             kind = {'std::vec::Vec': 'vec', 'std::collections::HashSet': 'set', 'std::collections::HashMap': 'map'}.get(head)
             if kind is None:
+                analyse_adaptors(ctx, st, it)
                 return eng.mk_default(st, rty)
+            ex = exact_items(ctx, st, it) if isinstance(it, IterV) else None
+            if ex is not None:
+                srcprov = None
+                if it.kind == 'coll' and it.args[0] is not None:
+                    c0 = eng.read(st, it.args[0])
+                    srcprov = c0.prov if isinstance(c0, CollV) else None
+                out = []
+                for (s, items) in ex:
+                    kn = build_known(kind, items)
+                    if kn is None:
+                        out = None
+                        break
+                    out.append((s, CollV(kind, rty, next(_c), length=NumV(None, len(kn), 'usize') if kind == 'vec' else None,
+                                         known=kn, prov=('collect', srcprov))))
+                if out is not None:
+                    return out
             if isinstance(it, IterV) and it.kind == 'coll':
                 path, ckey, mode = it.args
                 c = eng.read(st, path) if path is not None else None
@@ -859,6 +1296,42 @@ class Summaries:
                 return pay if pay is not None else eng.mk_default(ctx.st, ctx.ret_ty)
             ctx.oblige('unwrap', 'Result::unwrap on a value that must be Ok', False, repr(o))
             return eng.mk_default(ctx.st, ctx.ret_ty)
+
+        @reg('<std::option::Option<T> as std::ops::Try>::branch')
+        def _(ctx):
+            rty = ctx.ret_ty
+            return fork_opt(ctx, ctx.args[0],
+                            lambda s, p: EnumV(rty, {1}, {1: StructV('Break', {'0': EnumV('std::option::Option<std::convert::Infallible>', {0}, {0: StructV('None', {})})})}),
+                            lambda s, p: EnumV(rty, {0}, {0: StructV('Continue', {'0': p})}))
+
+        @regx(r'^<std::option::Option<T> as std::ops::FromResidual<.*>>::from_residual$')
+        def _(ctx):
+            return none(ctx.ret_ty)
+
+        @reg('<std::result::Result<T, E> as std::ops::Try>::branch')
+        def _(ctx):
+            rty = ctx.ret_ty
+            o = deref1(ctx, ctx.args[0])
+            if not isinstance(o, EnumV):
+                return eng.mk_default(ctx.st, rty)
+
+            def cont(p):
+                return EnumV(rty, {0}, {0: StructV('Continue', {'0': p if p is not None else OpaqueV('ok', next(_c))})})
+
+            def brk(p):
+                return EnumV(rty, {1}, {1: StructV('Break', {'0': EnumV('std::result::Result<std::convert::Infallible, E>', {1}, {1: StructV('Err', {'0': p if p is not None else OpaqueV('err', next(_c))})})})})
+            pk = (o.payload.get(0).fields.get('0') if o.payload.get(0) else None)
+            pe = (o.payload.get(1).fields.get('0') if o.payload.get(1) else None)
+            if o.tags == {0}:
+                return cont(pk)
+            if o.tags == {1}:
+                return brk(pe)
+            s2 = ctx.st.fork()
+            return [(ctx.st, cont(pk)), (s2, brk(pe))]
+
+        @regx(r'^<std::result::Result<T, F> as std::ops::FromResidual<.*>>::from_residual$')
+        def _(ctx):
+            return EnumV(ctx.ret_ty, {1}, {1: StructV('Err', {'0': OpaqueV('err', next(_c))})})
 
         @reg('std::option::Option::<T>::unwrap_or')
         def _(ctx):
@@ -1536,6 +2009,16 @@ class Summaries:
                 return ('absent',)
             return None
 
+        def table_value(ctx, c):
+            """some value of an exactly known string-valued constant table (key not constant)"""
+            if c.known is None or not c.known:
+                return None
+            vals = tuple(v.known for _, v in c.known if isinstance(v, StrV) and v.known is not None)
+            if len(vals) != len(c.known):
+                return None
+            name = c.prov[1] if isinstance(c.prov, tuple) and len(c.prov) > 1 else '?'
+            return StrV(None, oid=next(_c), prov=('table-value', name, vals))
+
         @regx(r'^std::collections::HashMap::<K, V, S, A>::(get|get_mut)$')
         def _(ctx):
             r, kr = ctx.args
@@ -1553,7 +2036,12 @@ class Summaries:
                 ctx.st.store[root] = hit
                 return some(rty, RefV((root, ())))
             log(ctx, 'map.get', spath(path), k, mut)
-            if path is not None:
+            tv = table_value(ctx, c)
+            if tv is not None and not mut:
+                root = ('H', 'tmp%d' % next(_c))
+                ctx.st.store[root] = tv
+                ref = RefV((root, ()))
+            elif path is not None:
                 ref = RefV((path[0], path[1] + (('e', k),)), mut)
             else:
                 ref = OpaqueV('&elem', next(_c))
@@ -1607,11 +2095,9 @@ class Summaries:
                 f = ctx.st.vn.get(('fact', ('contains', c.key(), k.key() if isinstance(k, V) else None)))
                 ok = (f is True)
                 if c.known is not None:
-                    vals = tuple(v.known for _, v in c.known if isinstance(v, StrV) and v.known is not None)
-                    name = c.prov[1] if isinstance(c.prov, tuple) and len(c.prov) > 1 else '?'
+                    tv = table_value(ctx, c)
                     root = ('H', 'tmp%d' % next(_c))
-                    ctx.st.store[root] = StrV(None, oid=next(_c), prov=('table-value', name, vals)) if vals and len(vals) == len(c.known) \
-                        else eng.mk_default(ctx.st, elem_type(c.ty, 'map'))
+                    ctx.st.store[root] = tv if tv is not None else eng.mk_default(ctx.st, elem_type(c.ty, 'map'))
                     res = RefV((root, ()))
                 elif path is not None:
                     res = RefV((path[0], path[1] + (('e', k),)))
@@ -1957,6 +2443,63 @@ class Summaries:
                 return RefV((path[0], path[1] + (('e', i),)))
             return eng.mk_default(st, ctx.ret_ty)
 
+        @regx(r'^core::slice::<impl \[T\]>::(get|first|last)(::<.*>)?$')
+        def _(ctx):
+            what = re.search(r'\]>::(get|first|last)', ctx.callee).group(1)
+            r = ctx.args[0]
+            path, c = coll_at(ctx, r)
+            st = ctx.st
+            rty = ctx.ret_ty
+            if what == 'get':
+                i = ctx.args[1]
+                if not isinstance(i, NumV):
+                    return eng.mk_default(st, rty)
+            ln = NumV(None, len(c.known), 'usize') if c.known is not None else c.length
+            if not isinstance(ln, NumV):
+                ln = eng.fresh_num(st, 'usize', 0, 2**40, name='len')
+                if path is not None:
+                    eng.write(st, path, c.evolve(length=ln), log=False)
+            if what == 'first':
+                i = NumV(None, 0, 'usize')
+            elif what == 'last':
+                i = NumV(ln.sym, ln.k - 1, 'usize')
+
+            def elem(s):
+                c2 = type(ctx)(ctx.eng, s, ctx.fr, ctx.bi, ctx.t, ctx.fn, ctx.callee, ctx.args, ctx.depth)
+                log(c2, 'vec.index', spath(path), i, c.prov)
+                if c.known is not None and i.sym is None and 0 <= i.k < len(c.known):
+                    root = ('H', 'tmp%d' % next(_c))
+                    s.store[root] = c.known[i.k]
+                    return RefV((root, ()))
+                if c.known is not None and c.elem is None and all(isinstance(x, StrV) for x in c.known):
+                    root = ('H', 'tmp%d' % next(_c))
+                    s.store[root] = StrV(None, oid=next(_c), prov=('vec-elem', c.prov, i))
+                    return RefV((root, ()))
+                if path is not None:
+                    return RefV((path[0], path[1] + (('e', i),)))
+                return mkref(s, eng.mk_default(s, elem_type(c.ty, c.kind)))
+            if what == 'last':
+                inb = eng.prove_cmp(st, 'gt', ln, NumV(None, 0, 'usize'))
+            else:
+                inb = eng.prove_cmp(st, 'lt', i, ln)
+            if inb is True:
+                return some(rty, elem(st))
+            if inb is False:
+                return none(rty)
+            s2 = st.fork()
+            out = []
+            if what == 'last':
+                ok1 = eng.assume_cmp(st, 'gt', ln, NumV(None, 0, 'usize'))
+                ok0 = eng.assume_cmp(s2, 'eq', ln, NumV(None, 0, 'usize'))
+            else:
+                ok1 = eng.assume_cmp(st, 'lt', i, ln)
+                ok0 = eng.assume_cmp(s2, 'ge', i, ln)
+            if ok1:
+                out.append((st, some(rty, elem(st))))
+            if ok0:
+                out.append((s2, none(rty)))
+            return out
+
         @regx(r'^std::string::String::drain$|^std::vec::Vec::<T, A>::drain$')
         def _(ctx):
             r, rng = ctx.args[0], ctx.args[1]
@@ -1973,6 +2516,30 @@ class Summaries:
             ctx.st.store[root] = c
             bump(ctx, path, c, known=(), length=NumV(None, 0, 'usize'))
             return IterV('coll', ctx.ret_ty, ((root, ()), c.key(), 'val'), iid=next(_c))
+
+        @regx(r"^<std::vec::Vec<T, A> as std::iter::Extend<(&'a )?T>>::extend$")
+        def _(ctx):
+            path, c = coll_at(ctx, ctx.args[0], 'vec')
+            src = ctx.args[1]
+            it = to_iter(ctx, src)
+            byref = "Extend<&'a" in ctx.callee
+            ex = exact_items(ctx, ctx.st, it) if isinstance(it, IterV) else None
+            if ex is not None and c.known is not None:
+                out = []
+                for (s, items) in ex:
+                    if byref:
+                        items = [eng.read(s, x.path) if isinstance(x, RefV) else x for x in items]
+                    c2 = type(ctx)(ctx.eng, s, ctx.fr, ctx.bi, ctx.t, ctx.fn, ctx.callee, ctx.args, ctx.depth)
+                    p2, cc = coll_at(c2, ctx.args[0], 'vec')
+                    log(c2, 'vec.extend', spath(p2), tuple(items))
+                    kn = cc.known + tuple(items) if cc.known is not None else None
+                    bump(c2, p2, cc, known=kn, length=NumV(None, len(kn), 'usize') if kn is not None else None)
+                    out.append((s, UNIT))
+                return out
+            analyse_adaptors(ctx, ctx.st, it)
+            log(ctx, 'vec.extend', spath(path), ('iter', it))
+            bump(ctx, path, c, known=None, length=eng.fresh_num(ctx.st, 'usize', 0, 2**40))
+            return UNIT
 
         @reg('std::vec::Vec::<T, A>::extend_from_slice')
         def _(ctx):
